@@ -155,7 +155,7 @@ def library_raised(exc):
     """True iff the exception was raised below a lightworks frame (the code under test), False if it comes from the harness itself"""
     import traceback
     frames = traceback.extract_tb(exc.__traceback__)
-    last_harness = max((i for i, f in enumerate(frames) if "/verif/harness/" in f.filename), default=-1)
+    last_harness = max((i for i, f in enumerate(frames) if f.filename.startswith(os.path.join(ROOT, "harness") + os.sep)), default=-1)
     return any("/lightworks/" in f.filename for f in frames[last_harness + 1:])
 
 
